@@ -70,7 +70,8 @@ def check(tier="quick", seed=0):
             try:
                 outs[h] = json.loads(so)
             except Exception:
-                return {"name": "ground.hosts", "error": "worker under %s failed: %s" % (h, (se or "")[-400:]), "obligations": [], "violations": []}
+                from ground.common import worker_failed
+                return worker_failed("ground.hosts", h, se, repo)
         ref_host = sorted(outs)[0]
 
         def rel(f):
